@@ -211,6 +211,14 @@ func c18(c *ev.Ctx) {
 		bcase{"return-in-all-arms", "function f(a) { if (a) { return 1; } else { return 2; } } return f(0);"},
 		bcase{"constant-folding-to-limit", "return 65533 + 1;"}, bcase{"constant-folding-over-limit", "return 65534 + 1;"}, bcase{"fold-then-jump", "if (1 + 1 == 2) { return 3 * 3; } return 4 - 5;"},
 		bcase{"false-branch-removed", "if (false) { t(1); } else { t(2); } while (false) { t(3); } return 1 == 2;"})
+	// every statement kind as the last statement of a function, with a return in some arm only:
+	// the body must still end in a return on every path
+	for i, tail := range []string{"if (a) { return 1; }", "if (a) { return 1; } else { x = 2; }", "if (a) { x = 1; } else { return 2; }", "if (a) { return 1; } else if (b) { return 2; }",
+		"switch (a) { case 1 { return 1; } }", "switch (a) { case 1 { x = 1; } default { return 2; } }", "switch (a) { default { return 2; } case 1 { x = 1; } }", "while (a) { return 1; }", "for (a) { a--; }",
+		"foreach e in [a] { return e; }", "foreach k, e in {\"k\": a} { if (e) { return k; } }", "if (a) { if (b) { return 1; } }", "if (a) { return 1; } else { if (b) { return 2; } }", "a ? 1 : 2", "x = a ? 1 : 2;",
+		"if (a) { foreach e in [1] { return e; } }", "if (a) { while (b) { return 1; } } else { return 3; }", "local q; if (a) { return q; }", "function inner() { if (a) { return 1; } }"} {
+		bs = append(bs, bcase{fmt.Sprintf("function-tail-%d", i), "function f(a, b) { x = 0; " + tail + " } f(0, 0); f(1, 1); return 1;"})
+	}
 	// element / argument / pair counts around the byte and 16-bit boundaries of the operand
 	for _, cnt := range []int{0, 1, 255, 256, 257, 1000, 65535} {
 		if cnt > 1000 && !c.Thorough() {
